@@ -2035,3 +2035,26 @@ M('C15','notifier-dereg-closes-channel','runtime/valuenotifier/listener.go','''	
 }''','notifier/close-means-notified')
 M('C19','onvariant-binary-guard-wrong-operand','core/safemath/safe_math.go',"""	if negationOverflows(y, x) {""","""	if negationOverflows(x, y) {""",'signed-div/guarded', base='C19-17')
 M('C19','onvariant-binary-guard-unsigned','core/safemath/safe_math.go',"""	return minusOne < 0 && factor == minusOne && v != 0 && v == -v""","""	return factor == minusOne && v != 0 && v == -v""",'signed-div/guard-signed-only', base='C19-17')
+M('C15','notifier-wait-ctx-done-is-success','runtime/valuenotifier/listener.go','''	case <-ctx.Done():
+		return ctx.Err()''','''	case <-ctx.Done():
+		return nil''','notifier/wait-success-only-on-notify')
+M('C15','notifier-wait-deregistered-is-success','runtime/valuenotifier/listener.go','''	case <-l.deregisteredChan:
+		return ErrListenerDeregistered''','''	case <-l.deregisteredChan:
+		return nil''','notifier/wait-success-only-on-notify')
+M('C15','silent-notifier-wait-result-variable','runtime/valuenotifier/listener.go','''	select {
+	case <-l.channel:
+		return nil
+	case <-l.deregisteredChan:
+		return ErrListenerDeregistered
+	case <-ctx.Done():
+		return ctx.Err()
+	}''','''	var err error
+	select {
+	case <-l.channel:
+	case <-l.deregisteredChan:
+		err = ErrListenerDeregistered
+	case <-ctx.Done():
+		err = ctx.Err()
+	}
+
+	return err''','', silent=True)
